@@ -390,7 +390,7 @@ func c05r3(w *World, rr *RuleRun) {
 			continue
 		}
 		st, ok := acc.Ins.(*ssa.Store)
-		okK := ok && within(acc.Ins.Parent(), w.P.Func("NewServer"))
+		okK := ok && (within(acc.Ins.Parent(), w.P.Func("NewServer")) || w.withinUp(acc.Ins.Parent(), w.P.Func("NewServer")))
 		v := "?"
 		if ok {
 			cv, isC := ConstInt(st.Val)
@@ -404,12 +404,21 @@ func c05r3(w *World, rr *RuleRun) {
 			continue
 		}
 		st, ok := acc.Ins.(*ssa.Store)
-		okR := ok && within(acc.Ins.Parent(), w.P.Func("NewServer"))
+		okR := ok && (within(acc.Ins.Parent(), w.P.Func("NewServer")) || w.withinUp(acc.Ins.Parent(), w.P.Func("NewServer")))
 		det := ""
 		if ok {
 			v := w.TS.Of(st.Val)
 			det = "stores " + v.String()
-			okR = okR && isFieldTerm(v, a.serverID)
+			same := isFieldTerm(v, a.serverID)
+			if !same {
+				// or the very value that is stored into Server.id in the same constructor
+				for _, sw := range w.FieldWrites(w.P.LibFuncs, a.serverID) {
+					if s2, isSt := sw.(*ssa.Store); isSt && enclosingNamed(s2.Parent()) == enclosingNamed(st.Parent()) && termEq(w.TS.Of(s2.Val), v) {
+						same = true
+					}
+				}
+			}
+			okR = okR && same
 		}
 		rr.At(w, acc.Ins, "table.rootID is the server's own ID, stored once in NewServer", okR, det)
 	}
